@@ -436,3 +436,10 @@ def gen(rnd, tier):
                 g2["tiers"][0]["name"] = g1["tiers"][0]["name"]   # cannot happen through the dict; kept distinct below
                 g2["tiers"][0]["name"] = "zz"
             yield {"op": "tg_validate", "tg": g2, "what": w, "grid": domain != "dec"}
+
+
+# living-object histories for the derived views that go through tierops (harness/living.py): timestamps / getNonEntries
+# read, the tier mutated through insertEntry / deleteEntry, read again on the same object
+import living  # noqa: E402
+living.install(globals(), only_ops=("nonentries", "itimestamps", "ptimestamps"), rate=0.5, cap=800, cap_thorough=6000,
+               inside=lambda s: s["op"] != "nonentries" or bool(s["tier"]["es"]))   # "getNonEntries on a tier with entries"
